@@ -399,9 +399,11 @@ def blk1(ctx: Ctx) -> None:
         if h is None or v not in full:
             ctx.R.undecided("BLK-1", f"{v}: no EXCEPT_HANDLER block observed")
             continue
-        env = {"sys": SimpleNamespace(version_info=full[v], implementation=SimpleNamespace(name="cpython")),
-               "block": SimpleNamespace(b_type=ctx.F["headers"][v]["EXCEPT_HANDLER"], b_handler=h, b_level=0),
-               "co": SimpleNamespace(co_code="x" * 1000), "stack": [0, 0, 0]}
+        env = {n_.targets[0].id: n_.value.value for n_ in mod.tree.body if isinstance(n_, ast.Assign) and len(n_.targets) == 1 and isinstance(n_.targets[0], ast.Name)
+               and isinstance(n_.value, ast.Constant) and isinstance(n_.value.value, (int, str))}      # module-level constants
+        env.update({"sys": SimpleNamespace(version_info=full[v], implementation=SimpleNamespace(name="cpython")),
+                    "block": SimpleNamespace(b_type=ctx.F["headers"][v]["EXCEPT_HANDLER"], b_handler=h, b_level=0),
+                    "co": SimpleNamespace(co_code="x" * 1000), "stack": [0, 0, 0]})
         m = Mini(env)
         failed = None
         try:
